@@ -136,7 +136,12 @@ def make_params(pp, method, g, seed, layout, scale_cells=None, flip_faces=None):
     if method == "mpfa":
         kxx, kyy, kzz = 0.5 + rs.rand(nc), 0.5 + rs.rand(nc), 0.5 + rs.rand(nc)
         kxy = 0.2 * (rs.rand(nc) - 0.5)
-        K = pp.SecondOrderTensor(kxx * fac, kyy=kyy * fac, kzz=(kzz * fac if g.dim == 3 else None), kxy=kxy * fac)
+        if g.dim == 3:
+            # full tensor in 3-D (diagonally dominant, hence SPD): the out-of-plane couplings make every sub-face of a face matter
+            kxz, kyz = 0.2 * (rs.rand(nc) - 0.5), 0.2 * (rs.rand(nc) - 0.5)
+            K = pp.SecondOrderTensor(kxx * fac, kyy=kyy * fac, kzz=kzz * fac, kxy=kxy * fac, kxz=kxz * fac, kyz=kyz * fac)
+        else:
+            K = pp.SecondOrderTensor(kxx * fac, kyy=kyy * fac, kzz=None, kxy=kxy * fac)
         return {"bc": pp.BoundaryCondition(g, bf, cond_list), "second_order_tensor": K}
     mu, lam = 0.5 + rs.rand(nc), 0.5 + rs.rand(nc)
     p = {"bc": pp.BoundaryConditionVectorial(g, bf, cond_list), "fourth_order_tensor": pp.FourthOrderTensor(mu * fac, lam / fac)}
@@ -295,11 +300,19 @@ def check_partial(pp, method, spec, seed, layout, mode, idx, inverter=None):
     params = make_params(pp, method, g, seed, layout)
     try:
         ref = reference(pp, method, spec, g, seed, layout, inverter=inverter)
-        got = mats(pp, method, discretize(pp, method, g, params, dict(inv_args(method, inverter), **{"specified_" + mode: np.asarray(idx, dtype=int)})))
+        data = discretize(pp, method, g, params, dict(inv_args(method, inverter), **{"specified_" + mode: np.asarray(idx, dtype=int)}))
+        got = mats(pp, method, data)
     except Exception as e:
         return [(ob(method, O_RUN), f"partial {mode} raises", f"specified_{mode}={list(idx)}: {type(e).__name__}: {e}")]
     faces, cells = targets(g, mode, idx)
     diff = compare(ref, got, row_selector(method, g, faces, cells))
+    if not diff and method in ("mpfa", "mpsa"):
+        # the faces the scheme itself reports as (re)discretised are rows the update targets: they must be complete as well
+        reported = data[pp.PARAMETERS][KWS[method]].get("active_faces")
+        if reported is not None:
+            reported = np.asarray(reported)
+            rf = np.flatnonzero(reported) if reported.dtype == bool or (reported.size == g.num_faces and set(np.unique(reported)) <= {0, 1}) else reported.astype(int)
+            diff = compare(ref, got, row_selector(method, g, rf, cells))
     return [(ob(method, O_PART), f"{g.dim}d {spec['kind']} specified_{mode}", f"specified_{mode}={list(idx)}: {_fmt(diff)}")] if diff else []
 
 
@@ -452,6 +465,10 @@ def grid_specs(quick):
         out[1] = dict(out[1], pert_seed=12)  # the triangle grid is node-perturbed in quick
         out += [  # large enough that the active subgrid of a corner-cell update is a proper subset of the grid; update relation only
                 {"kind": "cart", "n": [5, 4], "phys": [5.0, 4.0], "pert_seed": None, "only": "update"}]
+    # regular simplex grids on which 5-6 (2-D) / 4 (3-D) parts put some faces into three subproblems; split relation only
+    out += [{"kind": "tri", "n": [4, 2], "phys": [4.0, 2.0], "pert_seed": None, "only": "split", "splits": (5, 6)},
+            {"kind": "tet", "n": [2, 2, 1], "phys": [2.0, 2.0, 1.0], "pert_seed": None, "only": "split", "splits": (4,)},
+            {"kind": "cart", "n": [5, 4, 3], "phys": [5.0, 4.0, 3.0], "pert_seed": None, "only": "nodes"}]
     return out
 
 
@@ -506,7 +523,8 @@ def run(rep):
                 base = {"method": method, "grid": spec, "seed": seed, "layout": layout}
                 cases = []
                 only = spec.get("only")
-                for n in (() if only else ((2, 3) if small3d else (2, 3, 5))):
+                # (simplex grids with >= 4-6 parts have faces that lie in THREE subproblems: the repetition count of a face is not just 1 or 2)
+                for n in (spec["splits"] if spec.get("splits") else (() if only else ((2, 3, 4) if small3d else (2, 3, 5, 6)))):
                     cases.append(("split", {"part_args": {"num_subproblems": n}}))
                 try:
                     if only:
@@ -520,7 +538,7 @@ def run(rep):
                         rep.note("peak memory estimate not accessible: max_memory splits skipped")
                 if not only:
                     cases.append(("inverter", {}))
-                ntr = 2 if quick else 4
+                ntr = 0 if only == "split" else (2 if quick else 4)
                 for trial in range(ntr):
                     cells = sorted(rng.sample(range(g.num_cells), rng.randrange(1, 3)))
                     faces = sorted(rng.sample(range(g.num_faces), rng.randrange(1, 3)))
@@ -530,6 +548,17 @@ def run(rep):
                         cases.append(("partial", {"mode": "cells", "idx": cells}))
                         cases.append(("partial", {"mode": "faces", "idx": faces}))
                         cases.append(("partial", {"mode": "nodes", "idx": nodes}))
+                        # an arbitrary (non-box) node set: faces with some but not all of their nodes specified
+                        cases.append(("partial", {"mode": "nodes", "idx": sorted(rng.sample(range(g.num_nodes), max(2, (2 * g.num_nodes) // 3)))}))
+                    if only == "nodes":
+                        # 3-D grid large enough that the region around the specified nodes is a proper part of the grid: node sets that
+                        # leave quadrilateral faces with three of their four nodes specified (L-shaped cell group, sparse random set)
+                        if method != "biot":
+                            nx, ny = spec["n"][0], spec["n"][1]
+                            lcells = [0, 1, nx] if trial == 0 else [nx * ny + 1, nx * ny + 2, nx * ny + 1 + nx]
+                            cases.append(("partial", {"mode": "nodes", "idx": np.flatnonzero(cn[:, lcells].any(axis=1)).tolist()}))
+                            cases.append(("partial", {"mode": "nodes", "idx": sorted(rng.sample(range(g.num_nodes), g.num_nodes // 3))}))
+                        continue
                     # first trial: the last (corner) cell, deterministic; then seeded sets
                     ucells = [g.num_cells - 1] if trial == 0 else sorted(rng.sample(range(g.num_cells), rng.randrange(1, 3)))
                     ufaces = sorted(int(f) for f in rng.sample(list(bf), rng.randrange(1, 3)))
